@@ -6,6 +6,7 @@ Only property theorems and non-vacuity examples; helper lemmas are in `GT.Lemmas
 (unit views).  Every statement holds for ALL outer (composite) ranks and sizes.
 -/
 import GT.Lemmas.Obj
+import GT.Lemmas.Units
 import GT.Model.Units
 import Mathlib.Algebra.BigOperators.Fin
 import Mathlib.Algebra.Field.Rat
@@ -21,13 +22,6 @@ namespace GT.C04
 open GT ND
 
 variable {K : Type} [Field K] [Inhabited K]
-
-private theorem sum_map_range (n : ℕ) (f : ℕ → K) :
-    ((List.range n).map f).sum = ∑ j : Fin n, f j.1 := by
-  induction n with
-  | zero => simp
-  | succ n ih =>
-    rw [List.range_succ, List.map_append, List.sum_append, ih, Fin.sum_univ_castSucc]; simp
 
 /-! ## result shapes: elementwise = numpy broadcasting of the composite shapes, pairwise =
 object's axes then transformation's axes, pairwise_reversed the other way round -/
@@ -84,13 +78,8 @@ theorem matrixProduct_units_12 (mode : Bcast) (a₁ a₂ : ND K) {o₁ o₂ O : 
     ∃ c, matrixProduct a₁ a₂ 1 2 mode = .ok c ∧ c.shape = O ++ [m] ∧
       ∀ bix, Valid O bix →
         rowAt c m bix =
-          Matrix.vecMul (rowAt a₁ n (unitIx1 mode o₁ o₂ bix)) (matAt a₂ n m (unitIx2 mode o₁ o₂ bix)) := by
-  obtain ⟨c, hc, hs, hg⟩ := mp12 mode a₁ a₂ h₁ h₂ hO
-  refine ⟨c, hc, hs, ?_⟩
-  intro bix hv
-  funext cc
-  simp only [rowAt, matAt, Matrix.vecMul, dotProduct]
-  rw [hg bix cc.1 hv cc.2, sum_map_range]
+          Matrix.vecMul (rowAt a₁ n (unitIx1 mode o₁ o₂ bix)) (matAt a₂ n m (unitIx2 mode o₁ o₂ bix)) :=
+  mp12_units mode a₁ a₂ h₁ h₂ hO
 
 /-- all modes at once, unit ranks (2,2): matrix × matrix -/
 theorem matrixProduct_units_22 (mode : Bcast) (a₁ a₂ : ND K) {o₁ o₂ O : List ℕ} {p n m : ℕ}
@@ -99,13 +88,8 @@ theorem matrixProduct_units_22 (mode : Bcast) (a₁ a₂ : ND K) {o₁ o₂ O : 
     ∃ c, matrixProduct a₁ a₂ 2 2 mode = .ok c ∧ c.shape = O ++ [p, m] ∧
       ∀ bix, Valid O bix →
         matAt c p m bix =
-          matAt a₁ p n (unitIx1 mode o₁ o₂ bix) * matAt a₂ n m (unitIx2 mode o₁ o₂ bix) := by
-  obtain ⟨c, hc, hs, hg⟩ := mp22 mode a₁ a₂ h₁ h₂ hO
-  refine ⟨c, hc, hs, ?_⟩
-  intro bix hv
-  funext r cc
-  simp only [matAt, Matrix.mul_apply]
-  rw [hg bix r.1 cc.1 hv r.2 cc.2, sum_map_range]
+          matAt a₁ p n (unitIx1 mode o₁ o₂ bix) * matAt a₂ n m (unitIx2 mode o₁ o₂ bix) :=
+  mp22_units mode a₁ a₂ h₁ h₂ hO
 
 /-- all modes at once, unit ranks (3,2): every matrix of the stack × matrix -/
 theorem matrixProduct_units_32 (mode : Bcast) (a₁ a₂ : ND K) {o₁ o₂ O : List ℕ} {k p n m : ℕ}
@@ -114,13 +98,8 @@ theorem matrixProduct_units_32 (mode : Bcast) (a₁ a₂ : ND K) {o₁ o₂ O : 
     ∃ c, matrixProduct a₁ a₂ 3 2 mode = .ok c ∧ c.shape = O ++ [k, p, m] ∧
       ∀ bix, Valid O bix → ∀ v,
         stackAt c k p m bix v =
-          stackAt a₁ k p n (unitIx1 mode o₁ o₂ bix) v * matAt a₂ n m (unitIx2 mode o₁ o₂ bix) := by
-  obtain ⟨c, hc, hs, hg⟩ := mp32 mode a₁ a₂ h₁ h₂ hO
-  refine ⟨c, hc, hs, ?_⟩
-  intro bix hv v
-  funext r cc
-  simp only [stackAt, matAt, Matrix.mul_apply]
-  rw [hg bix v.1 r.1 cc.1 hv v.2 r.2 cc.2, sum_map_range]
+          stackAt a₁ k p n (unitIx1 mode o₁ o₂ bix) v * matAt a₂ n m (unitIx2 mode o₁ o₂ bix) :=
+  mp32_units mode a₁ a₂ h₁ h₂ hO
 
 /-- which units feed which result unit, spelled out per mode -/
 theorem unitIx_pairwise {o₁ o₂ i j : List ℕ} (hi : Valid o₁ i) :
